@@ -149,6 +149,8 @@ def run(ctx):
                 nv += 1
     ctx.cov["disagreements_checked"] = len(runs)
     ctx.cov["distinct_outputs_total"] = distinct_total
+    from vlib import regress
+    regress.wide_determinism(ctx)          # the shape-agnostic search step (DESIGN.md 12.8)
     ctx.cov["rule"] = ("5 special schemas (definition names tied under case folding / normalisation with different sub-schemas, colliding sibling properties, many imports and "
                        "constants, allOf/anyOf) + random in-guard schemas, under 5 option sets; each generated in %d separate processes: repeated runs, random and reversed key "
                        "order inside every JSON object, moved to another directory, invoked relative to another working directory; stdout and written files compared byte for byte; 5 sets of mappings with look-alike ids (trailing #, /, case, prefix) x repeated processes; the in-process generator run twice in one process on one file path under every ordered pair of 4 option sets, compared with a fresh process; 3 multi-file layouts (extension-less references with a .json and a .yaml candidate of different content, several --resolve-extension / --yaml-extension flags in different orders and spellings, one or two file arguments) x repeated processes; "
